@@ -63,6 +63,7 @@ type target struct {
 	opaque   map[string]string // source text -> Coq term
 	only     map[string]bool   // if set: assignments to other receiver fields are ignored
 	from     func(stmts []ast.Stmt) []ast.Stmt
+	setters    map[string]string // field name -> oracle (value -> field value -> value): v.f = e on a LOCAL value v rebinds v
 	inlineVars bool // package-level variables that are not binders and are never assigned are read as their initialisers
 	cond     func(fd *ast.FuncDecl) ast.Expr // translate one condition instead of a body
 	comment  string
@@ -626,6 +627,23 @@ func (x *tr) sprintf(c *ast.CallExpr) string {
 	}
 	tv, ok := x.p.TypesInfo.Types[c.Args[0]]
 	if !ok || tv.Value == nil || tv.Value.Kind() != constant.String {
+		if x.t.strict && x.kindOf(c.Args[0]) == "bytes" {
+			// a format computed at run time (e.g. built from a name): the format is DATA that Sprintf interprets -
+			// Dec.go_sprintf, partial (None = a verb or argument combination that is not modelled)
+			f := x.expr(c.Args[0])
+			var as []string
+			for _, a := range c.Args[1:] {
+				switch k := x.kindOf(a); {
+				case k == "Z":
+					as = append(as, "SInt "+paren(x.expr(a)))
+				case k == "bytes" && types.TypeString(x.p.TypesInfo.TypeOf(a), x.qual) == "string":
+					as = append(as, "SStr "+paren(x.expr(a)))
+				default:
+					x.bad(c, "Sprintf argument outside the fragment")
+				}
+			}
+			return x.partial("go_sprintf " + paren(f) + " [" + strings.Join(as, "; ") + "]")
+		}
 		x.bad(c, "Sprintf with a format that is not a constant")
 	}
 	f := constant.StringVal(tv.Value)
@@ -2119,6 +2137,73 @@ func (x *tr) assignStrict(z *ast.AssignStmt, tail func() string) string {
 			x.closed[obj] = true
 			x.notes = append(x.notes, "closure (declared): "+clip(src(z)))
 			return tail()
+		}
+	}
+	// v.f = e on a local value v (not the receiver) whose field f has a declared setter: v is rebound to (set_f v e);
+	// all right-hand sides are evaluated first, as in Go
+	if z.Tok == token.ASSIGN && len(z.Lhs) == len(z.Rhs) && len(x.t.setters) > 0 {
+		setterOf := func(l ast.Expr) (string, *ast.Ident) {
+			if se, ok := l.(*ast.SelectorExpr); ok {
+				if id, ok := se.X.(*ast.Ident); ok && id.Name != x.recv {
+					if f, ok := x.t.setters[se.Sel.Name]; ok {
+						if v, isVar := x.p.TypesInfo.ObjectOf(id).(*types.Var); isVar && v.Parent() != x.p.Types.Scope() {
+							return f, id
+						}
+					}
+				}
+			}
+			return "", nil
+		}
+		any := false
+		for _, l := range z.Lhs {
+			if f, _ := setterOf(l); f != "" {
+				any = true
+			}
+		}
+		if any {
+			mark := len(x.pending)
+			var vals, names, sets []string
+			for i, r := range z.Rhs {
+				vals = append(vals, x.expr(r))
+				if f, id := setterOf(z.Lhs[i]); f != "" {
+					names = append(names, x.objName(x.p.TypesInfo.ObjectOf(id), id.Name))
+					sets = append(sets, x.use(f))
+				} else {
+					nm, ok := x.lhsName(z.Lhs[i])
+					if !ok {
+						x.bad(z, "assignment target outside the fragment")
+					}
+					x.stateWrite(z.Lhs[i], nm)
+					names = append(names, nm)
+					sets = append(sets, "")
+				}
+			}
+			isId := func(c byte) bool {
+				return c == '_' || c == '\'' || c >= '0' && c <= '9' || c >= 'a' && c <= 'z' || c >= 'A' && c <= 'Z'
+			}
+			for _, nm := range names {
+				for _, v := range vals {
+					for i := 0; i+len(nm) <= len(v); i++ {
+						if v[i:i+len(nm)] == nm && (i == 0 || !isId(v[i-1])) && (i+len(nm) == len(v) || !isId(v[i+len(nm)])) {
+							x.bad(z, "parallel assignment whose right-hand sides read an assigned variable")
+						}
+					}
+				}
+			}
+			return x.hoistStmt(mark, func() string {
+				var f func(i int) string
+				f = func(i int) string {
+					if i == len(names) {
+						return tail()
+					}
+					rhs := vals[i]
+					if sets[i] != "" {
+						rhs = fmt.Sprintf("%s %s %s", sets[i], x.use(names[i]), paren(vals[i]))
+					}
+					return x.let(names[i], rhs, func() string { return f(i + 1) })
+				}
+				return f(0)
+			})
 		}
 	}
 	// call with a declared rendering on the right
